@@ -62,12 +62,22 @@ type tsoOracle struct {
 	maxTS       uint64
 	lastElected map[string]int // allocator -> step of its latest successful campaign
 	suffixStep  map[string]int
+	genSeen     map[int]int     // node -> step of the latest observation
+	gen         map[int][]genAt // node -> observed changes of the global allocator's in-memory (physical, logical)
+}
+
+// genAt: the global allocator's in-memory TSO of a node as observed after a scheduler step.
+type genAt struct {
+	step    int
+	prev    int   // the last step at which the previous value was still observed
+	phys    int64 // ms
+	logical int64
 }
 
 func newTSOOracle(rc *core.RunCtx, e *Env) *tsoOracle {
 	o := &tsoOracle{rc: rc, e: e, all: map[string][]tsResp{}, prefMax: map[string][]uint64{}, rets: map[string][]int{},
 		stored: map[string]int64{}, ackedFloor: map[string]int64{}, leaderVal: map[string]string{}, leases: map[int64]*leaseOwn{}, keyLease: map[string][]*leaseOwn{},
-		memberOf: map[string]int{}, suffixes: map[string]string{}, lastElected: map[string]int{}, suffixStep: map[string]int{}}
+		memberOf: map[string]int{}, suffixes: map[string]string{}, lastElected: map[string]int{}, suffixStep: map[string]int{}, gen: map[int][]genAt{}, genSeen: map[int]int{}}
 	e.W.Etcd.OnCommit = append(e.W.Etcd.OnCommit, o.onCommit)
 	return o
 }
@@ -223,6 +233,50 @@ func (e *Env) memberValue(node int) string {
 		return v
 	}
 	return ""
+}
+
+// monitorGen records, after every scheduler step, the in-memory TSO of every live global allocator when it changed.
+func (o *tsoOracle) monitorGen() {
+	for _, n := range o.e.W.Nodes {
+		if !n.Up || n.Srv == nil {
+			continue
+		}
+		for _, p := range n.Srv.SimTSOManager().SimPeekAll() {
+			if p.DC != "global" {
+				continue
+			}
+			g := genAt{step: o.rc.S.Step, logical: p.Logical}
+			if !p.Physical.IsZero() {
+				g.phys = p.Physical.UnixNano() / int64(time.Millisecond)
+			}
+			h := o.gen[n.ID]
+			if k := len(h); k == 0 || h[k-1].phys != g.phys || h[k-1].logical != g.logical {
+				g.prev = -1
+				if k > 0 {
+					g.prev = o.genSeen[n.ID]
+				}
+				o.gen[n.ID] = append(h, g)
+			}
+			o.genSeen[n.ID] = o.rc.S.Step
+		}
+	}
+}
+
+// generatedAfter: a step at which the node's in-memory TSO was certainly still below (phys, logical), i.e. the
+// timestamp had not been generated yet (observations may lag, which only makes the answer earlier). -1: unknown.
+func (o *tsoOracle) generatedAfter(node int, phys, logical int64, ret int) int {
+	h := o.gen[node]
+	// the first observation at which the clock had reached (phys, logical); the in-memory clock is reset to zero when
+	// the member steps down and restarts from a larger physical time, so the same physical never comes back
+	for j := range h {
+		if h[j].step > ret {
+			break
+		}
+		if h[j].phys == phys && h[j].logical >= logical {
+			return h[j].prev
+		}
+	}
+	return -1
 }
 
 // monitorC02: in-memory physical time of every live allocator stays below the stored window.
@@ -505,6 +559,9 @@ func (e *Env) tsoClient(name string, o *tsoOracle, cfg tsoClientCfg, done *int) 
 			ts := resp.GetTimestamp()
 			if e.OnTSO != nil {
 				e.OnTSO(node, inv, ret)
+			}
+			if e.OnTSOResp != nil {
+				e.OnTSOResp(node, inv, ret, alloc, ts.GetPhysical(), ts.GetLogical(), ts.GetSuffixBits())
 			}
 			o.observe(tsResp{alloc: alloc, node: node, phys: ts.GetPhysical(), logical: ts.GetLogical(), bits: ts.GetSuffixBits(), count: count, inv: inv, ret: ret, view: view})
 			if cfg.maxGap > 0 {
